@@ -549,7 +549,7 @@ def mk_not(t):
         return t[1]
     if t[0] == 'cmp' and t[1] in ('<', '<='):
         # not (a<b)  ==  b<=a   (total orders only: crysp compares ints)
-        return ('cmp', '<=' if t[1] == '<' else '<', t[3], t[2])
+        return mk_cmp('<=' if t[1] == '<' else '<', t[3], t[2])
     if t[0] in ('and', 'or'):
         # De Morgan (exact, also as values: both sides yield a bool decided by the same operand in the same order)
         return mk_bool('or' if t[0] == 'and' else 'and', [mk_not(x) for x in t[1]])
@@ -937,6 +937,8 @@ class PE:
         if isinstance(n.op, ast.USub):
             if is_c(v) and isinstance(v[1], (int, float)):
                 return C(-v[1])
+            if kind_of(v) == 'num' and not (self.opts is not None and self.opts.ordered):
+                return mk_neg(v, self.opts)
             return ('neg', v)
         if isinstance(n.op, ast.Invert):
             if is_int(v):
@@ -1540,6 +1542,22 @@ class PE:
         c, flipped = canon_cond(c)
         if flipped:
             fa, fb = fb, fa
+        if len(fa) == 1 and len(fb) == 1 and fa[0][0] == 'exit' and fb[0][0] == 'exit' and fa[0][1] == fb[0][1] \
+                and fa[0][1] in ('return', 'end'):
+            # both branches only leave the function: one exit with a conditional value and a conditional final state
+            # (`if c: x.a = 1; return` + rest   ==   `if c: x.a = 1 else: rest`)
+            sa, sb = {r[1]: r[2] for r in fa[0][3]}, {r[1]: r[2] for r in fb[0][3]}
+            st = []
+            for name in sorted(set(sa) | set(sb)):
+                init = self.roots.get(name)
+                if init is None:
+                    break
+                v = mk_ite(c, sa.get(name, init), sb.get(name, init))
+                if v != init:
+                    st.append(('root', name, v))
+            else:
+                effects.append(('exit', fa[0][1], mk_ite(c, fa[0][2], fb[0][2]), tuple(st)))
+                return
         effects.append(('if', c, tuple(fa), tuple(fb)))
 
     def assigned_names(self, stmts):
